@@ -25,7 +25,8 @@ API_OPS = ["meta 1", "flags 1", "vc 1", "vd 1", "fv 1", "missing 1", "failed 1",
            "read 1 1", "read 1 100", "read 1 40000", "readall 1 1 4096", "readall 1 0 1 7 100000",
            "chunkdata 1 0", "chunkdata 1 1", "chunkdata 1 2", "chunkdata 1 9", "chunkcomp 1 0", "chunkcomp 1 1", "chunkcomp 1 3",
            "chunkdata 1 1 5", "chunkcomp 1 1 5", "chunkdata 1 2 0",
-           "range 2 1 -1", "range 3 1 2", "range 4 1 0", "range_free 2", "copy 5 1", "copy 1 5", "match 5 1", "match 1 5", "close 1"]
+           "range 2 1 -1", "range 3 1 2", "range 4 1 0", "range_free 2", "copy 5 1", "copy 1 5", "match 5 1", "match 1 5", "close 1",
+           "cmpchunk 1 0 5 0", "cmpchunk 5 1 1 1", "cmpchunk 1 1 5 1", "cmpchunk 6 1 1 1", "cmpchunk 1 1 6 1", "copy 6 1", "match 1 6"]
 
 
 def fixed_programs(nchunks_hint):
@@ -41,20 +42,22 @@ def fixed_programs(nchunks_hint):
     # 4: plain streaming read with small buffers
     progs.append(["readall 1 1 1 7 100", "close 1"])
     # 5: as delta source for a valid target, as target of a valid source, uncompressed matching
-    progs.append(["copy 1 5", "flags 5", "copy 5 1", "flags 1", "match 1 5", "match 5 1", "close 1"])
+    progs.append(["copy 1 5", "flags 5", "copy 5 1", "flags 1", "match 1 5", "match 5 1",
+                  "cmpchunk 1 1 5 1", "cmpchunk 5 1 1 1", "cmpchunk 1 1 6 1", "cmpchunk 6 1 1 1", "cmpchunk 1 0 6 0", "match 1 6", "match 6 1", "close 1"])
     # 6: data-length / first-chunk getters and reads after a failed validation with the error cleared
     progs.append(["vc 1", "clear_error 1", "meta 1", "chunkdata 1 1", "clear_error 1", "readall 1 1 512", "clear_error 1", "range 2 1 -1", "close 1"])
     return progs
 
 
 def script_for(prog, mode):
-    L = ["noout 1", "fopen 5 good.zck rw target", "create 5", "init_read 5 5", "fv 5", "reset_failed 5"]
+    L = ["noout 1", "fopen 5 good.zck rw target", "create 5", "init_read 5 5", "fv 5", "reset_failed 5",
+         "fopen 6 good2.zck rw target", "create 6", "init_read 6 6"]
     if mode == "adv":
         L += ["fopen 1 f.zck rw input", "create 1", "init_adv_read 1 1", "read_lead 1", "read_header 1"]
     else:
         L += ["fopen 1 f.zck rw input", "create 1", "init_read 1 1"]
     L += prog
-    L += ["free 1", "free 5"]
+    L += ["free 1", "free 5", "free 6"]
     return "\n".join(L) + "\n"
 
 
@@ -93,16 +96,16 @@ def worker(case):
         good = core.unb64(case["good"])
         gate = False
         for pi, (mode, prog) in enumerate(case["progs"]):
-            files = {"f.zck": data, "good.zck": good}
+            files = {"f.zck": data, "good.zck": good, "good2.zck": core.unb64(case["good2"])}
             r = core.run_zh(case["zh"], cdir, script_for(prog, mode), files, name="p%d" % pi)
             stats["evaluations"] += 1
             stats["api_calls"] = stats.get("api_calls", 0) + len([e for e in r.events if "op" in e])
             if r.timed_out and not r.cpu_exceeded:
                 return core.verdict(cid, "inconclusive", detail="watchdog in program %d" % pi, case=case)
-            o = r.first(op="init_read") if mode != "adv" else r.first(op="read_header")
-            opened = [e for e in r.events if e.get("op") in ("init_read", "read_header") and e.get("rc") == 1]
-            if len(opened) >= 2 or (mode == "adv" and opened and opened[-1]["op"] == "read_header"):
-                gate = True
+            calls = {e["i"]: e["call"] for e in r.events if "call" in e}
+            for e in r.events:
+                if e.get("op") in ("init_read", "read_header") and e.get("rc") == 1 and calls.get(e.get("i"), "") in ("init_read 1 1", "read_header 1"):
+                    gate = True   # the hostile input itself passed the header checksum gate
             cs = core.crash_signatures(r)
             if cs:
                 viols.append((cs[0], "program %d (%s) op '%s': %s" % (pi, mode, r.open_call, cs)))
@@ -208,6 +211,8 @@ class C03(core.Check):
             if len(d) < (1 << 20):
                 out.append(("suite:" + os.path.basename(fn), d))
         self.good = bases[0]["data"]
+        # a second well-formed partner whose chunk checksums are the LONGEST type (64 bytes): comparisons against shorter ones must not over-read
+        self.good2 = zckref.make_file([b"partner-%d" % k * 9 for k in range(3)], comp_type=0, chunk_hash_type=2, hash_type=2)
         return out
 
     def cases(self, ctx):
@@ -227,7 +232,7 @@ class C03(core.Check):
             subset = None
             if (i % (8 if self.quick else 3)) == 0 or desc.startswith(("grid:chunk", "edge:", "c13:valid")):
                 tools = ctx["tools"]
-            out.append({"desc": desc, "data": core.b64(data), "good": core.b64(self.good), "progs": progs, "zh": ctx["zh"], "tools": tools, "tool_subset": subset})
+            out.append({"desc": desc, "data": core.b64(data), "good": core.b64(self.good), "good2": core.b64(self.good2), "progs": progs, "zh": ctx["zh"], "tools": tools, "tool_subset": subset})
         return out
 
     def post(self, verdicts, ctx):
